@@ -14,7 +14,7 @@
    parameter), every string argument, and every value satisfying the decidable valid_value.
    The rows range over EVERY table satisfying the decidable ok_accessors; the instance for the
    table generated from /repo is closed by vm_compute (C15_table). *)
-From V.model Require Import Base Deb822Lex Deb822Parse Grammar Lossy Deb822Edit Copyright Accessors.
+From V.model Require Import Base Deb822Lex Deb822Parse Grammar Lossy Deb822Edit LiveDoc Copyright Accessors.
 From V.proofs Require Import BaseP GrammarAccP LossyRtP Deb822EditP AccessorsP.
 From V.gen Require Import Accessors_gen.
 
@@ -236,6 +236,65 @@ Check C15_sequence : forall c a g s arg v b p,
   forall p1 p', run_setters c LI a p = Ok p1 -> run_setters c LI ((s, arg, v) :: b) p1 = Ok p' ->
   getter c LI g arg p' = Ok (expect (r_codec g) (r_op s) (r_codec s) v).
 Print Assumptions C15_sequence.
+
+(* ------------------------------------------------------------------ 3b. the printed text re-read *)
+(* A plain setter on a paragraph is para_set / para_remove of its field (so on a document it is
+   the C04 step OSet / ORemove on that paragraph) ... *)
+Theorem C15_setter_tree : forall c s arg v cs f raw, row_field s arg = Some f ->
+  match r_op s with OSet | OSetOrRemove | OSetParam => true | _ => false end = true ->
+  encode (r_op s) (r_codec s) v = Some raw ->
+  setter c TI s arg v cs =
+    match raw with
+    | Some t => Ok (para_set cs f t)
+    | None => match r_op s with OSetParam => Err 9%N | _ => Ok (para_remove cs f) end
+    end.
+Proof. exact setter_TI_tree. Qed.
+Check C15_setter_tree : forall c s arg v cs f raw, row_field s arg = Some f ->
+  match r_op s with OSet | OSetOrRemove | OSetParam => true | _ => false end = true ->
+  encode (r_op s) (r_codec s) v = Some raw ->
+  setter c TI s arg v cs =
+    match raw with
+    | Some t => Ok (para_set cs f t)
+    | None => match r_op s with OSetParam => Err 9%N | _ => Ok (para_remove cs f) end
+    end.
+Print Assumptions C15_setter_tree.
+
+(* ... hence, on every live document (LiveDoc.lwf: every parsed well-formed document, every document
+   built from canonical pairs, closed under the edits — C04) and for a written text in C04's
+   domain (canon_kv: valid name, non-empty lines without LF/CR that do not begin with a blank,
+   continuation lines not beginning with '#'): the printed document re-reads without error, the
+   re-read document holds the paragraph with the field set, and the getter on it returns the value *)
+Theorem C15_reread : forall c g s arg v (d : ldocl) n p f raw,
+  pair_ok g s arg = true -> valid_value c (r_codec g) (r_op s) (r_codec s) v = true ->
+  row_field s arg = Some f -> encode (r_op s) (r_codec s) v = Some (Some raw) -> canon_kv f raw = true ->
+  lwf d = true -> nth_error (doc_items (ltree_of d)) n = Some p ->
+  let t' := on_para (ltree_of d) n (fun cs => para_set cs f raw) in
+  exists t'', from_str (text t') = Ok t'' /\
+    doc_items t'' = nonempty_paras (upd_nth n (fun q => l_set q f raw) (doc_items (ltree_of d))) /\
+    In (l_set p f raw) (doc_items t'') /\
+    getter c LI g arg (l_set p f raw) = Ok (expect (r_codec g) (r_op s) (r_codec s) v).
+Proof. exact reread_after_set. Qed.
+Check C15_reread : forall c g s arg v (d : ldocl) n p f raw,
+  pair_ok g s arg = true -> valid_value c (r_codec g) (r_op s) (r_codec s) v = true ->
+  row_field s arg = Some f -> encode (r_op s) (r_codec s) v = Some (Some raw) -> canon_kv f raw = true ->
+  lwf d = true -> nth_error (doc_items (ltree_of d)) n = Some p ->
+  let t' := on_para (ltree_of d) n (fun cs => para_set cs f raw) in
+  exists t'', from_str (text t') = Ok t'' /\
+    doc_items t'' = nonempty_paras (upd_nth n (fun q => l_set q f raw) (doc_items (ltree_of d))) /\
+    In (l_set p f raw) (doc_items t'') /\
+    getter c LI g arg (l_set p f raw) = Ok (expect (r_codec g) (r_op s) (r_codec s) v).
+Print Assumptions C15_reread.
+
+Theorem C15_reread_clear : forall (d : ldocl) n f, lwf d = true ->
+  let t' := on_para (ltree_of d) n (fun cs => para_remove cs f) in
+  exists t'', from_str (text t') = Ok t'' /\
+    doc_items t'' = nonempty_paras (upd_nth n (fun q => l_remove q f) (doc_items (ltree_of d))).
+Proof. exact reread_after_clear. Qed.
+Check C15_reread_clear : forall (d : ldocl) n f, lwf d = true ->
+  let t' := on_para (ltree_of d) n (fun cs => para_remove cs f) in
+  exists t'', from_str (text t') = Ok t'' /\
+    doc_items t'' = nonempty_paras (upd_nth n (fun q => l_remove q f) (doc_items (ltree_of d))).
+Print Assumptions C15_reread_clear.
 
 (* ------------------------------------------------------------------ 4. getters on parsed text *)
 (* the value a getter sees is the value of the field in the document text: for every well-formed
